@@ -43,6 +43,22 @@ type Gen struct {
 	// Budget bounds the number of fields/elements populated per top-level value
 	Budget int
 	left   int
+	// Force: field numbers of the top-level message that are always populated (with a non-default
+	// value where the kind allows), so that a series of cases covers every field of a wide message
+	Force map[protoreflect.FieldNumber]bool
+}
+
+// Cover arranges for case number c of n to force the fields whose index is congruent to c.
+func (g *Gen) Cover(md protoreflect.MessageDescriptor, c, n int) {
+	g.Force = map[protoreflect.FieldNumber]bool{}
+	if n <= 0 {
+		return
+	}
+	for i := 0; i < md.Fields().Len(); i++ {
+		if i%n == c%n {
+			g.Force[md.Fields().Get(i).Number()] = true
+		}
+	}
 }
 
 func New(seed int64) *Gen {
@@ -203,17 +219,31 @@ func (g *Gen) Fill(m protoreflect.Message, depth int) {
 		g.left = g.Budget
 	}
 	oneofDone := map[string]bool{}
+	zbOrig := g.ZeroBias
+	defer func() { g.ZeroBias = zbOrig }()
 	for i := 0; i < md.Fields().Len(); i++ {
+		g.ZeroBias = zbOrig
 		fd := md.Fields().Get(i)
 		if od := fd.ContainingOneof(); od != nil && !od.IsSynthetic() {
 			if oneofDone[string(od.Name())] {
 				continue
 			}
 			oneofDone[string(od.Name())] = true
-			if g.R.Intn(4) == 0 {
+			var forced protoreflect.FieldDescriptor
+			if depth == 0 {
+				for k := 0; k < od.Fields().Len(); k++ {
+					if g.Force[od.Fields().Get(k).Number()] {
+						forced = od.Fields().Get(k)
+					}
+				}
+			}
+			if forced == nil && g.R.Intn(4) == 0 {
 				continue // oneof unset
 			}
 			fd = od.Fields().Get(g.R.Intn(od.Fields().Len()))
+			if forced != nil {
+				fd = forced
+			}
 			if fd.Message() != nil {
 				if depth >= g.MaxDepth {
 					continue
@@ -228,14 +258,22 @@ func (g *Gen) Fill(m protoreflect.Message, depth int) {
 			}
 			continue
 		}
-		if g.R.Intn(100) < 35 || g.left <= 0 {
+		force := depth == 0 && g.Force[fd.Number()]
+		if !force && (g.R.Intn(100) < 35 || g.left <= 0) {
 			continue
 		}
 		g.left--
+		if force {
+			g.ZeroBias = 0 // a forced field must actually be populated
+		}
 		switch {
 		case fd.IsMap():
 			mp := m.Mutable(fd).Map()
-			for n := g.R.Intn(g.MaxLen + 1); n > 0 && g.left > 0; n-- {
+			nn := g.R.Intn(g.MaxLen + 1)
+			if force && nn == 0 {
+				nn = 2
+			}
+			for n := nn; n > 0 && (g.left > 0 || force); n-- {
 				g.left--
 				k := g.Scalar(fd.MapKey()).MapKey()
 				if fd.MapValue().Message() != nil {
@@ -250,7 +288,11 @@ func (g *Gen) Fill(m protoreflect.Message, depth int) {
 			}
 		case fd.IsList():
 			l := m.Mutable(fd).List()
-			for n := g.R.Intn(g.MaxLen + 1); n > 0 && g.left > 0; n-- {
+			nn := g.R.Intn(g.MaxLen + 1)
+			if force && nn == 0 {
+				nn = 2
+			}
+			for n := nn; n > 0 && (g.left > 0 || force); n-- {
 				g.left--
 				if fd.Message() != nil {
 					sub := l.NewElement()
